@@ -221,16 +221,19 @@ ADDENDA = {
  'C01': " The YAML documents of the tie are written in four spellings (double-quoted, plain incl. flow sequences, single-quoted, anchors/aliases/`<<` merges); "
         "fixed families: user chords named by digits next to ambiguous interval numbers, chords taking over another chord's symbol or long name.",
  'C02': " Documents in four YAML spellings incl. zero-padded numbers written plain (`values: [010]`).",
- 'C03': " Pieces with three key declarations (first key or its enharmonic twin again third; each on a chord or a rest; all key pairs thorough).",
+ 'C06': " Fixed pieces: user chords of 255..300 notes between rests on 1..5 tracks.",
+ 'C03': " Every seventh `conv` case runs with --debug; the same key named twice in one brace block. Pieces with three key declarations (first key or its enharmonic twin again third; each on a chord or a rest; all key pairs thorough).",
  'C04': IO + " Stream `sizes` (padding oracles 70 KB .. 17 MB, thorough 68 MB).",
  'C05': " Key-triple pieces in `conv`; `threeway` returns to an earlier key a third of the time.",
- 'C07': " Documents in four YAML spellings: texts and whole metadata maps repeated through aliases and `<<` merges, zero-padded bpm/meter written plain.",
+ 'C07': " A ninth of the documents run with --debug; free-form metadata named like settings (key, bpm, vel, mtr) stays text. Documents in four YAML spellings: texts and whole metadata maps repeated through aliases and `<<` merges, zero-padded bpm/meter written plain.",
  'C09': IO,
- 'C10': IO,
+ 'C10': IO + " `wconv` texts include several-line texts beginning with a tab, U+2028/U+2029, NEL, BOM, NBSP and the keys `<<`, `\\nkey`, `\\tk\\nk` (found D24, fixed in 85c2e47).",
  'C11': " every_accepted_sign_known: every entry of the regenerated token table of kind SHARP/FLAT is read as sharp/flat by the converters. `variants` probes the "
         "real lexer with ~1,000 candidate runes and uses every rune lexed like `#`/`b` as an equivalent spelling; leading zeros in runs of up to 1,000.",
  'C12': IO + " `repeat` also runs dictionaries with one faulty entry among good ones 40 (120) times each.",
- 'C13': " Also runs the `conv` stream (the scale applied after key changes carried by chords and rests).",
+ 'C13': " Also runs the `conv` stream (the scale applied after key changes carried by chords and rests, a --key without a scale next to a text with its own key) "
+        "and the `write` stream (key signature events, also several at tick 0).",
+ 'C17': " Also runs the `conv` stream (relative, parallel and enharmonic key changes in one piece).",
  'C14': IO + " Stream `keyconv`: `crd info key conv` through the binary, commands of up to 100,000 (131,000) letters incl. 65,535..65,537, every third case via -o onto an existing file.",
  'C15': " Stream `cdescribe`: `crd info chord describe` through the binary with user attributes/chords (compound intervals before and after simple ones of the "
         "same class, repeated intervals, attribute files also written without quotes), each interval compared with the model and with `info attr describe` alone.",
